@@ -173,4 +173,23 @@ def opLines : Op → List Str
   | .overwrite _ ls => normLines ls
   | _ => []
 
+/-! ### deciders for the hypotheses of the byte-level theorems (Props/C15 `wf_decides`)
+
+Executable versions of `TextOk` / `OpOk` (Lemmas/Section.lean) and of `1 ≤ w`: the driver evaluates
+them on every generated history (`wf` of entry `c15.run`), the harness compares with `true`. -/
+
+/-- a written line is text: no newline inside, no ESC -/
+def textOkB (l : Str) : Bool := !(l.contains '\n') && !(l.contains ESC)
+
+def opOkB : Op → Bool
+  | .write _ ls => ls.all textOkB
+  | .overwrite _ ls => ls.all textOkB
+  | _ => true
+
+/-- the hypotheses of `stream_refines`: a usable width and text lines only -/
+def wfB (w : Nat) (ops : List Op) : Bool := decide (1 ≤ w) && ops.all opOkB
+
+/-- the start situation of `screen_refines`: the cursor is on the row after the last row shown -/
+def anchoredB (scr : Screen) : Bool := scr.cur == scr.rows.length
+
 end Clikit.Section
